@@ -110,6 +110,33 @@ fn p_owned_items() {
     kani::cover!(take > n, "past the end");
     kani::cover!(take < n, "stopped early");
 }
+struct Pz;
+impl Drop for Pz { fn drop(&mut self) { unsafe { DROPS += 1 } } }
+#[repr(align(64))]
+struct Pal { v: u32, heap: Box<u8> }
+impl Drop for Pal { fn drop(&mut self) { unsafe { DROPS += 1 } } }
+struct Pbig([u64; 24]);
+fn items_class<T>(mk: fn() -> T, counted: bool) {
+    let n: usize = kani::any();
+    kani::assume(n <= 2);
+    let mut v: Vec<T> = Vec::new();
+    let mut i = 0;
+    while i < n { v.push(mk()); i += 1; }
+    let mut src = v.into_iter();
+    let mut got = 0usize;
+    {
+        let mut c = CIterator::new(&mut src);
+        let mut j = 0;
+        while j < 3 { if let Some(x) = c.next() { got += 1; drop(x); assert!(drops() as usize == if counted { got } else { 0 }, "C15 each yielded item is owned by the caller exactly once (any item class)"); } j += 1; }
+    }
+    assert!(got == n, "C15 yields exactly the source's items (any item class)");
+    drop(src);
+    assert!(drops() as usize == if counted { n } else { 0 }, "C15 nothing produced or dropped that the source did not yield (any item class)");
+    kani::cover!(n == 2, "two items");
+}
+#[kani::proof] #[kani::unwind(5)] fn p_owned_class_zst_drop() { items_class::<Pz>(|| Pz, true); }
+#[kani::proof] #[kani::unwind(5)] fn p_owned_class_aligned() { items_class::<Pal>(|| Pal { v: 1, heap: Box::new(1) }, true); }
+#[kani::proof] #[kani::unwind(5)] fn p_owned_class_big() { items_class::<Pbig>(|| Pbig([2; 24]), false); }
 static mut TRAMP_CALLS: u32 = 0;
 extern "C" fn never_yields(_it: &mut c_void, _out: &mut MaybeUninit<D>) -> i32 { unsafe { TRAMP_CALLS += 1 }; 1 }
 extern "C" fn yields_other_code(_it: &mut c_void, _out: &mut MaybeUninit<D>) -> i32 { unsafe { TRAMP_CALLS += 1 }; -7 }
